@@ -308,7 +308,6 @@ fn c14_select_invalid_timeval() {
     let sec: libc::time_t = kani::any();
     let usec: libc::suseconds_t = kani::any();
     kani::assume(sec < 0 || usec < 0);
-    kani::assume(sec >= -2 && sec <= 0 && usec >= -2 && usec <= 0);
     let r = select_case(sec, usec, 0);
     kani::assert(r == -1, "a negative timeout is rejected");
     kani::assert(errno() == libc::EINVAL, "with EINVAL as the native call does");
@@ -317,6 +316,113 @@ fn c14_select_invalid_timeval() {
     }
     kani::cover!(sec < 0, "negative seconds");
     kani::cover!(usec < 0, "negative microseconds");
+}
+
+// ---------------------------------------------------------------- poll / select: EVERY timeout value
+// The slice loops count the timeout down in 1,2,4,8,16,16,... ms steps, so an unrolled run only reaches
+// small timeouts. These harnesses make the *whole* argument range symbolic and let the scripted kernel
+// report readiness at the k-th probe (k <= 6 symbolic): every execution has <= 7 iterations, and the
+// assertion is about what the hook did up to its return:
+//   returned 0 ("timed out")  =>  the waits it requested add up to at least the caller's timeout
+//   any return                =>  it never requested more than the caller's timeout (rounded up to 1 ms)
+// A conversion that wraps, truncates or mis-scales some value shows up as "timed out after a few ms
+// although the caller asked for more" for that value.
+static mut SEL_READY_AT: u32 = u32::MAX;
+extern "C" fn mock_select_ready_at(
+    _n: c_int,
+    _r: *mut libc::fd_set,
+    _w: *mut libc::fd_set,
+    _e: *mut libc::fd_set,
+    _t: *mut libc::timeval,
+) -> c_int {
+    unsafe {
+        SEL_CALLS += 1;
+        if SEL_CALLS > SEL_READY_AT {
+            1
+        } else {
+            0
+        }
+    }
+}
+
+#[kani::proof]
+#[kani::unwind(9)]
+#[kani::stub(crate::common::now, vnow)]
+#[kani::stub(crate::net::EventLoops::wait_event, wait_event_stub)]
+fn c14_select_any_timeval_first_slices() {
+    let sec: libc::time_t = kani::any();
+    let usec: libc::suseconds_t = kani::any();
+    kani::assume(sec >= 0);
+    kani::assume(usec >= 0 && usec < 1_000_000); // every valid timeval; tv_usec >= 10^6 is outside (the kernel rejects it)
+    let k: u32 = kani::any();
+    kani::assume(k <= 6);
+    reset(0);
+    unsafe {
+        SEL_CALLS = 0;
+        SEL_READY_AT = k;
+    }
+    let f: extern "C" fn(c_int, *mut libc::fd_set, *mut libc::fd_set, *mut libc::fd_set, *mut libc::timeval) -> c_int =
+        mock_select_ready_at;
+    let mut tv = libc::timeval { tv_sec: sec, tv_usec: usec };
+    let r = select(Some(&f), 0, std::ptr::null_mut(), std::ptr::null_mut(), std::ptr::null_mut(), &raw mut tv);
+    unsafe {
+        kani::assert(r == 0 || r == 1, "select returns the kernel's result or 0");
+        kani::assert(!NONE_WAIT, "select: a finite timeout never waits unbounded");
+        // k <= 6 probes request at most 1+2+4+8+16+16 ms, so the nanosecond total below cannot overflow
+        let req_ns = REQ_SECS * 1_000_000_000 + REQ_NANOS;
+        kani::assert(REQ_SECS == 0 && REQ_NANOS <= 47_000_000, "select: slices are 1,2,4,8,16,16 ms at most");
+        if r == 0 {
+            // timed out: only legal when the whole requested time has been waited for
+            kani::assert(sec == 0, "select: a timeout of a second or more cannot expire within the first 47 ms");
+            kani::assert(req_ns >= (usec as u64) * 1_000, "select must not return earlier than the requested timeout");
+        }
+        if sec == 0 {
+            kani::assert(req_ns < (usec as u64) * 1_000 + 1_000_000, "select must not wait longer than the requested timeout rounded up to 1 ms");
+        }
+        if r == 1 {
+            kani::assert(SEL_CALLS == k + 1, "select returns at the first ready probe");
+        }
+    }
+    kani::cover!(r == 0 && usec == 31_000, "times out exactly at the 5th slice");
+    kani::cover!(r == 1 && sec == libc::time_t::MAX, "maximal seconds, ended by readiness");
+    kani::cover!(r == 1 && sec == 4_294_968, "a timeout just above 2^32 ms");
+}
+
+#[kani::proof]
+#[kani::unwind(9)]
+#[kani::stub(crate::common::now, vnow)]
+#[kani::stub(crate::net::EventLoops::wait_event, wait_event_stub)]
+fn c14_poll_any_timeout_first_slices() {
+    let t: c_int = kani::any();
+    let k: u32 = kani::any();
+    kani::assume(k <= 6);
+    reset(0);
+    unsafe {
+        POLL_CALLS = 0;
+        POLL_READY_AT = k;
+        POLL_BAD_TIMEOUT = false;
+    }
+    let f: extern "C" fn(*mut libc::pollfd, libc::nfds_t, c_int) -> c_int = mock_poll;
+    let mut fds = libc::pollfd { fd: 3, events: libc::POLLIN, revents: 0 };
+    let r = poll(Some(&f), &raw mut fds, 1, t);
+    unsafe {
+        kani::assert(r == 0 || r == 1, "poll returns the kernel's result or 0");
+        kani::assert(!POLL_BAD_TIMEOUT, "poll: kernel only probed with timeout 0");
+        kani::assert(!NONE_WAIT && REQ_SECS == 0 && REQ_NANOS <= 47_000_000, "poll: slices are 1,2,4,8,16,16 ms at most");
+        if r == 0 {
+            kani::assert(t >= 0, "poll: an infinite timeout never expires");
+            kani::assert(REQ_NANOS >= (t as u64) * 1_000_000, "poll must not return earlier than the requested timeout");
+        }
+        if t >= 0 {
+            kani::assert(REQ_NANOS <= (t as u64) * 1_000_000, "poll must not wait longer than the requested timeout");
+        }
+        if r == 1 {
+            kani::assert(POLL_CALLS == k + 1, "poll returns at the first ready probe");
+        }
+    }
+    kani::cover!(r == 0 && t == 31, "times out exactly at the 5th slice");
+    kani::cover!(r == 1 && t == c_int::MAX - 1, "largest finite timeout, ended by readiness");
+    kani::cover!(r == 1 && t < 0, "infinite timeout, ended by readiness");
 }
 
 // ---------------------------------------------------------------- pthread_cond_timedwait
